@@ -36,8 +36,7 @@ CORPUS = [
 
 def sympy_rebuild_error(cls, msg):
     """exceptions SymPy raises while expr.func(*new_args) re-evaluates a rebuilt node"""
-    return (cls == 'RecursionError' or (cls == 'TypeError' and 'Invalid NaN comparison' in msg) or
-            (cls == 'ValueError' and 'is not comparable' in msg))
+    return cls == 'ValueError' and 'is not comparable' in msg
 
 
 def tjson(n):
@@ -189,7 +188,7 @@ def work(case):
         # a wrong dimension must be refused
         try:
             uin = W.unit_obs(U.evaluate_units(expr))
-            if to is not None and uin[1] != dims and not uc.has_compound_exponent(eff):
+            if to is not None and uin[1] != dims:
                 findings.append(('dimension', 'input has dimensions %r, converted to %r without error' % (uin[1], dims)))
         except Exception:
             pass
@@ -359,33 +358,23 @@ def floor_ceiling_converted(case):
     return _kind(case) == 'value' and uc.has_fn(uc.tree_unjson(case['tree']), (3, 4))
 
 
-def mul_rebuilt_identity(case):
-    """a product that is given a target is rebuilt with expr.func(*args) even when nothing was converted"""
-    return _kind(case) == 'identity' and uc.tree_unjson(case['tree'])[0] == 5 and case.get('target') is not None
-
-
-def result_has_compound_exponent(case):
-    """strict inference of the (correctly converted) result fails because of C04's F6"""
-    return _kind(case) == 'strict' and case.get('out') is not None and \
-        uc.has_compound_exponent(uc.tree_unjson(case['out']))
-
-
 def result_magnitude_exception(case):
     """strict inference of the result raises a Python arithmetic exception (C04 magnitude-arithmetic-exception)"""
     return _kind(case) == 'strict' and case.get('detail', {}).get('err') in (
         'ZeroDivisionError', 'Other:OverflowError', 'TypeError')
 
 
-def piecewise_rebuild_recursion(case):
-    """expr.func(*new_args) re-evaluates the rebuilt Piecewise / Min / Max / relation with SymPy, which can recurse
-    forever (Piecewise.eval) or raise 'Invalid NaN comparison' / 'is not comparable' on degenerate operands"""
+def minmax_rebuild_not_comparable(case):
+    """expr.func(*new_args) re-evaluates a rebuilt Min / Max with SymPy, which raises "is not comparable" for
+    operands that are not real (log of a negative number ...)"""
     d = case.get('detail', {})
     return _kind(case) == 'exception' and sympy_rebuild_error(d.get('err'), d.get('msg') or '') and \
-        any(s[0] in (13, 7, 9) for s in uc.subtrees(uc.tree_unjson(case['tree'])))
+        uc.has_fn(uc.tree_unjson(case['tree']), (40, 41))
 
 
+# repaired in /repo (fix: commits, see build/fixes): mul-rebuilt-without-conversion, piecewise-rebuild-recursion,
+# result-fails-strict-inference-F6
 KNOWN_PREDICATES = {'floor_ceiling_converted': floor_ceiling_converted,
-                    'piecewise_rebuild_recursion': piecewise_rebuild_recursion,
+                    'minmax_rebuild_not_comparable': minmax_rebuild_not_comparable,
                     'result_magnitude_exception': result_magnitude_exception,
-                    'mul_rebuilt_identity': mul_rebuilt_identity,
-                    'result_has_compound_exponent': result_has_compound_exponent}
+                    }
